@@ -670,6 +670,9 @@ LEGACY_KD_INNER_COUNT = ("445241434f02020001000064000000010100060400000102640000
                          "010100040000000000000004000000000000000400000000000000")
 
 
+LEGACY_KD_FLOAT_INNER_COUNT = "445241434f020200010000010000000101000903000000060100000003000000010800000022e65c44010000000600000009000000ffffff7f01010001010001010001010001010001010001010001010001010001010001010001010001010001010001010001010001010001010001010001010001010001010001010001010001010001010001010001010001010001010001010001010001010004000000c0df53ff04000000000000000400000000000000"
+
+
 def regression_cases(flavour, oracles, kd=True):
     """streams of earlier findings, run first: (1) testdata/cube_att.obj.edgebreaker.cl10.2.2.drc with num_orientations
     (int32 at offset 172) = 2^31-1: before fix 008c24a the portable tex-coord decoder requested 256 MiB for it;
@@ -690,6 +693,10 @@ def regression_cases(flavour, oracles, kd=True):
     # (4) legacy (2.2) integer kd-tree stream whose payload declares 2^31-4 points for a 100-point cloud: before fix
     # c9df685 it was accepted after 2^31 loop iterations per decode call (watchdog); it must be rejected promptly
     out.append(make_case(bytes.fromhex(LEGACY_KD_INNER_COUNT), "01234", flavour, oracles, ("regression", "legacy_kd_inner_count")))
+    # (5) legacy float kd-tree stream (all validated counts 1) whose embedded integer tree declares 2^31-1 points: before
+    # fix 63027a3 the quantized point vector grew without bound; it must be rejected with small allocations
+    out.append(make_case(bytes.fromhex(LEGACY_KD_FLOAT_INNER_COUNT), "01234", flavour, oracles,
+                         ("regression", "legacy_kd_float_inner_count")))
     if kd:
         out.append(make_case(bytes.fromhex(KD_QUADRATIC), "01234", flavour, oracles, ("regression", "kd_quadratic_stacks")))
     return out
